@@ -7,11 +7,15 @@ package yubiattest
 //vsym:model (*math/big.Int).Bytes m06Bytes
 //vsym:model (*math/big.Int).BitLen m06BitLen
 //vsym:model math/big.NewInt m06NewInt
+//vsym:expect-cover C06.em.accept C06.em.reject C06.em.accept-with-null C06.em.accept-without-null
 //vsym:bound H06_em: modulus size k in {128} (quick) / {128,256,384,512} (thorough) plus the sizes tLen+9..tLen+13 of each hash; hash in {SHA1,SHA256,SHA384,SHA512}; every byte of the encoded message EM and of the digest symbolic; number of leading zero bytes of EM split 0..k
 //vsym:assume math/big is modelled: Exp yields an arbitrary k-byte EM (the adversary controls sig, hence EM is arbitrary below N), Bytes() is the minimal big-endian form, BitLen() = 8k
 
+//vsym:replay same-harness
+
 import (
 	"crypto"
+	"crypto/rand"
 	"crypto/rsa"
 	"math/big"
 )
@@ -111,11 +115,7 @@ func H06_em() {
 	case 2:
 		copy(em[2:], rest[2:])
 	}
-	// minimal form handed out by the Bytes() model
-	first := 0
-	for first < k && lz >= 2 && false {
-		first++
-	}
+	vAssume(em[0] < 0x80) // EM = sig^e mod N < N; stated bound em < 2^(8k-1)
 	switch lz {
 	case 0:
 		m06EM = em
@@ -137,8 +137,19 @@ func H06_em() {
 	}
 	digest := vNondetBytes("digest", hLen)
 	pub := &rsa.PublicKey{N: new(big.Int), E: 65537}
+	sig := m06Sig
+	if vIsNative() {
+		// replay against the real math/big: a real key of k bytes and the
+		// signature em^d mod N
+		priv, gerr := rsa.GenerateKey(rand.Reader, k*8)
+		if gerr != nil {
+			panic(gerr)
+		}
+		pub = &priv.PublicKey
+		sig = new(big.Int).Exp(new(big.Int).SetBytes(em), priv.D, priv.N).Bytes()
+	}
 
-	err := verifyPKCS1v15(pub, h, digest, m06Sig)
+	err := verifyPKCS1v15(pub, h, digest, sig)
 
 	spec := vOr(s06Spec(em, k, p1, digest), s06Spec(em, k, p2, digest))
 	vCover(err == nil, "C06.em.accept")
